@@ -212,6 +212,15 @@ def _judge(case):
                 elif not isinstance(res, TextBlock) or tuple(res.lines) not in {
                         c + a for c in content_opts for a in app_opts}:
                     bad('chunk-lines', f'appendix={name} lines={res.lines!r}')
+        # L6b -- whatever the content contributes, it is the same with and without an appendix (a header of a content
+        #        block included): chunk(content, appendix) = chunk(content, nothing) + appendix
+        bare = chunk(mk(enc), None)
+        for name, app_enc, app_opts in APPENDICES[2:]:
+            full = chunk(mk(enc), mk(app_enc))
+            if (bare is None) != (full is None):
+                bad('chunk-emptiness-depends-on-appendix', f'appendix={name}')
+            elif bare is not None and tuple(full.lines) not in {tuple(bare.lines) + a for a in app_opts}:
+                bad('chunk-content-depends-on-appendix', f'appendix={name}: without {bare.lines!r}, with {full.lines!r}')
         # L7 -- cond_chunk
         if emp != 'either':
             for (pre_enc, pre), (er_enc, erl), (aname, app_enc, app_opts), aon in itertools.product(
